@@ -223,6 +223,11 @@ impl From<BigUint> for Fr {
     #[verifier::external_body]
     fn from(b: BigUint) -> (r: Fr) ensures r.view() == b.view() % P() { unimplemented!() }
 }
+impl From<u64> for Fr {
+    // ASSUMED(dep): Fr::from(u64) is that integer (every u64 is < P)
+    #[verifier::external_body]
+    fn from(v: u64) -> (r: Fr) ensures r.view() == v as nat { unimplemented!() }
+}
 impl From<Fr> for BigUint {
     // ASSUMED(dep): ark-ff `impl From<Fp> for BigUint` = into_bigint().into(): the canonical representative
     #[verifier::external_body]
